@@ -55,7 +55,7 @@ Section Ltv.
     repeat match goal with u : unit |- _ => destruct u end.
     match goal with E : verify_cr _ _ _ _ _ _ _ = Ok _ |- _ =>
       apply verify_cr_le in E; [destruct E as (vin & vout & Ei & Eo & Hvin & Hle)|exact Hwf|exact HP|cbn [iter_b upd_borrow b_in]; lia|eapply ltv_nonneg; eassumption] end.
-    destruct (HS _ _ E) as (_ & l2 & p2 & Hl2 & Hp2 & Hasset).
+    destruct (HS _ _ E E0) as (_ & l2 & p2 & Hl2 & Hp2 & Hasset).
     rewrite E3 in Hl2; injection Hl2 as <-. rewrite E1 in Hp2; injection Hp2 as <-.
     rewrite (calc_price_ext cfg st) in Ei by reflexivity. rewrite (calc_price_ext cfg st) in Eo by reflexivity.
     cbn [iter_b upd_borrow b_in b_out b_int] in Ei, Eo.
